@@ -1,15 +1,16 @@
 """C12 — template rendering follows the documented grammar; bound values stay data.
 
-Protocol (one case = env, tmpl*, ctx, fenv, render/translate+):
-  env <extraWordCps> <extraSpaceCps> <markerPre> <markerSuf> <filterName>*   (recomputed by run_impl from the
-                                                                              tree under test: CPython/regex facts)
-  tmpl <name> <sequence>
+Protocol (one case = a HISTORY over several Ribosome instances):
+  env <extraWordCps> <extraSpaceCps> <markerPre> <markerSuf> (<set>=<filterName>,…)*   (rewritten by run_impl from the
+                                              tree under test: CPython/regex facts, marker, the filters each set GIVES)
   ctx (<name>=<kind><truthy>,<str(value)>[,L<item>;…])*     kind: s i b n (scalars) l t (list/tuple) m (dict)
                                                              item = <kind><str(item)>[/<key>~<value>]*
-  fenv (<filter>:<var>:o:<result> | <filter>:<var>:r:<class>)*   (recomputed by run_impl: the real filter table
-                                                                  applied to the bound values)
-  render <sequence> <strict>      -> ok <text> <warned names> | raise:<Class>
-  translate <name> <strict>
+  fenv (<set>:<filter>:<var>:o:<result> | <set>:<filter>:<var>:r:<class>)*   (rewritten by run_impl: the filters a
+                                              set gives = builtin snapshot + the set's custom ones, applied to the values)
+  new <id> <strict> <set>         Ribosome(strict=…, filters=<custom filters of the set>) — stays alive for the case
+  tmpl <id> <name> <sequence>     create_template on that instance (re-registration allowed)
+  render <id> <sequence>          -> ok <text> <warned names> | raise:<Class>      (synthesize)
+  translate <id> <name>
 """
 from __future__ import annotations
 
@@ -257,15 +258,25 @@ def has_brace(s: str) -> bool:
 
 # ----------------------------------------------------------------------------------------------------------
 NAMES = ["a", "b", "c", "xs", "ys", "flag", "name", "item", "index", "upper", "first", "last", "é1", "Big", "n_2"]
-FILTERS = ["upper", "lower", "trim", "title", "nofilter", "length", "json", "repr", "bang"]
+FILTERS = ["upper", "lower", "trim", "title", "nofilter", "length", "json", "repr", "bang", "shout"]
+# custom filter sets an instance can be constructed with ("none" = a plain Ribosome()).  Some override a builtin,
+# some are named like one-word defaults used by the templates.
+CUSTOM = {
+    "none": {},
+    "bang": {"bang": lambda x: str(x) + "!", "my f": lambda x: "<" + str(x) + ">"},
+    "over": {"upper": lambda x: "<<" + str(x).upper() + ">>", "anonymous": lambda x: "***",
+             "shout": lambda x: str(x).upper() + "!", "none": lambda x: "-"},
+    "dfl": {"dflt": lambda x: "D:" + str(x), "a b": lambda x: "AB", "title": lambda x: str(x)},
+}
+SETS = ["bang", "bang", "none", "none", "over", "dfl"]
 TEXTS = ["hello ", "x", "\n", " - ", "", "|", "plain", "t", "é", "a b", "#if a", ">t0", ": ", "\ud800", "\x85", "²"]
 BTEXTS = ["{ }", "}{", "{\"k\": \"", "\"}", "{", "}", "{a}", "[{", "}]"]
 SAFE_VALS = ["v", "Hello World", " sp ", 0, 5, "", True, False, None, "a|b", "x y", "é", "#if a", ">t0", "?b",
-             "\ud800", "a\nb", "ǆ"]
+             "\ud800", "a\nb", "ǆ", "C:\\new\\table.txt", "a\\\\b", "\\1", "\\g<0>", "x\\", "$1 & \\0"]
 HOSTILE = ["{{a}}", "{{?b}}", "{{>t0}}", "{{#if a}}x{{/if}}", "}}", "{{", "{", "}", "{{index}}", "{{item}}",
            "{{name|upper}}", "{{#each xs}}q{{/each}}", "{{{", "x}y", "{{secret}}", "{{#else}}", "{{/if}}", "{{/each}}",
            "{{.}}", "{{c|dflt}}", "{{b|", "a}}", "{{>missing}}", "{{#if flag}}", "{{flag", {"k": "v"}, {"a": "{{b}}"}]
-DEFAULTS = ["none", "N/A", "a b", "upper", "0", "é", "x|y", "#else", "my f"]
+DEFAULTS = ["none", "N/A", "a b", "upper", "0", "é", "x|y", "#else", "my f", "anonymous", "shout", "dflt"]
 BDEFAULTS = ["{", "a{b", "{{c"]
 DICTS = [{"a": "A1", "q": "Q"}, {"item": "OVR"}, {"index": "IDX", "b": "B2"}, {}, {".": "DOT"}]
 HDICTS = [{"a": "{{b}}"}, {"q": "}}"}, {"a b": "SP"}]
@@ -315,15 +326,19 @@ class C12(Prop):
         import_repo()
         from operon_ai.organelles import ribosome as m
         self.m = m
-        self.custom = {"bang": lambda x: str(x) + "!", "my f": lambda x: "<" + str(x) + ">"}
-        rb = m.Ribosome(silent=True, filters=self.custom)
-        self.filter_names = list(rb.filters.keys())
+        # the documented builtin filters, taken before any instance exists (a tree that lets instances write into the
+        # class-level table must not be able to change what the reference considers "given")
+        self.builtin = dict(m.Ribosome.BUILTIN_FILTERS)
         probe = m.Ribosome(silent=True).synthesize("{{>zq}}").sequence
         if "zq" in probe:
             i = probe.index("zq")
             self.marker = (probe[:i], probe[i + 2:])
         else:
             self.marker = (probe, "")
+
+    def given(self, st):
+        """the filters an instance constructed with custom set `st` was GIVEN: builtins + its own"""
+        return {**self.builtin, **CUSTOM.get(st, {})}
 
     # --- generation ---------------------------------------------------------------------------------------
     def _inline(self, R, braces):
@@ -381,21 +396,31 @@ class C12(Prop):
             ctx["a"] = [R.choice(SAFE_VALS[:5])]
         return ctx
 
-    def case(self, templates, ctx, renders, note=""):
-        lines = ["env - - - -"]
-        for n, s in templates:
-            lines.append(f"tmpl {hexs(n)} {hexs(s)}")
-        lines.append(enc_ctx(ctx))
-        lines.append("fenv")
-        for kind, s, strict in renders:
-            lines.append(f"{kind} {hexs(s)} {int(strict)}")
+    def hcase(self, ctx, ops, note=""):
+        """ops: ("new", id, strict, set) | ("tmpl", id, name, text) | ("render", id, text) | ("translate", id, name)
+        | ("ctx", dict)"""
+        lines = ["env - - - -", enc_ctx(ctx), "fenv"]
+        for o in ops:
+            if o[0] == "new": lines.append(f"new {o[1]} {int(o[2])} {o[3]}")
+            elif o[0] == "tmpl": lines.append(f"tmpl {o[1]} {hexs(o[2])} {hexs(o[3])}")
+            elif o[0] == "render": lines.append(f"render {o[1]} {hexs(o[2])}")
+            elif o[0] == "translate": lines.append(f"translate {o[1]} {hexs(o[2])}")
+            elif o[0] == "ctx": lines += [enc_ctx(o[1]), "fenv"]
         return {"lines": lines, "note": note}
+
+    def case(self, templates, ctx, renders, note="", st="bang"):
+        """one non-strict and (if needed) one strict instance with the same registry; renders = (kind, text, strict)"""
+        ops = [("new", 0, False, st)] + [("tmpl", 0, n, s) for n, s in templates]
+        if any(r[2] for r in renders):
+            ops += [("new", 1, True, st)] + [("tmpl", 1, n, s) for n, s in templates]
+        ops += [(k, int(strict), s) for k, s, strict in renders]
+        return self.hcase(ctx, ops, note)
 
     def generate(self, rng, tier, n):
         R = rng
         for _ in range(n):
             mode = R.random()
-            hostile = mode < 0.4
+            hostile = mode < 0.35
             braces = R.random() < 0.25
             malformed = mode > 0.93
             names, templates = [], []
@@ -405,15 +430,36 @@ class C12(Prop):
                 names.append(nm)
             if malformed and templates and R.random() < 0.4:      # include cycle
                 templates[0] = (templates[0][0], templates[0][1] + "{{>%s}}" % R.choice(names))
-            top = self._malformed(R) if malformed else pr(self._tmpl(R, names, braces))
+            tops = [self._malformed(R) if malformed else pr(self._tmpl(R, names, braces))]
+            if R.random() < 0.4:
+                tops.append(pr(self._tmpl(R, names, braces)))
             ctx = self._ctx(R, hostile)
-            renders = [("render", top, False)]
-            if R.random() < 0.35:
-                renders.append(("render", top, True))
-            if names and R.random() < 0.3:
-                renders.append(("translate", R.choice(names + ["nope"]), R.random() < 0.3))
-            yield self.case(templates, ctx, renders,
-                            "malformed" if malformed else "hostile values" if hostile else "delimiter-free values")
+            insts, ops = [], []
+
+            def mk():
+                i = len(insts)
+                strict, st = R.random() < 0.3, R.choice(SETS)
+                insts.append((i, strict, st))
+                ops.append(("new", i, strict, st))
+                ops.extend(("tmpl", i, nm_, s_) for nm_, s_ in templates)
+            mk()
+            for _j in range(R.choice([1, 2, 2, 3, 4, 6])):
+                if len(insts) < 3 and R.random() < 0.35:
+                    mk()
+                i = R.randrange(len(insts))
+                r = R.random()
+                if r < 0.8 or not names:
+                    ops.append(("render", i, R.choice(tops)))
+                else:
+                    ops.append(("translate", i, R.choice(names + ["nope"])))
+                if names and R.random() < 0.15:      # re-register an included template (maybe after a render that raised)
+                    k = R.randrange(len(names))
+                    text = "ok" if R.random() < 0.4 else pr(self._tmpl(R, names[:k], braces))
+                    ops.append(("tmpl", i, names[k], text))
+                    ops.append(("render", i, R.choice(tops)))
+                if R.random() < 0.08:
+                    ops.append(("ctx", self._ctx(R, hostile)))
+            yield self.hcase(ctx, ops, "malformed" if malformed else "hostile values" if hostile else "delimiter-free values")
 
     def exhaustive(self, tier):
         # every single construct x every binding state of its variable, delimiter-free and hostile
@@ -452,11 +498,46 @@ class C12(Prop):
             for a in (0, 1):
                 probes.append(self.case([("t0", "<{{b}}>")], {"a": a, "b": "B", "xs": ["i", "j"]},
                                         [("render", tmpl, False)], "interleaved / nested blocks (correspondence only)"))
+        # per-item bindings: dict items with non-uniform keys, mixed with scalars; backslashes in every kind of slot
+        for us in ([{"name": "ann", "role": "admin"}, {"name": "bob"}], [{"q": "Q1"}, "s", {"a": "A2"}, {}],
+                   [{"item": "OVR", "k": "K"}, {"index": "IDX"}, 7]):
+            for body in ("{{name}}={{role}};", "{{q}}{{a}}{{k}}|", "{{item}}{{index}}{{k}}{{.}},", "{{?role}}{{role|dflt}}{{role}}"):
+                for role in (None, "guest"):
+                    ctx = {"us": us, "b": "B"}
+                    if role is not None:
+                        ctx["role"] = role
+                    probes.append(self.case([], ctx, [("render", "{{#each us}}" + body + "{{/each}}", False)],
+                                            "per-item loop bindings"))
+        for v in ("C:\\new\\table.txt", "a\\\\b", "\\1", "\\g<0>", "x\\", "\\d+"):
+            for tmpl in ("{{a}}", "{{?a}}", "{{a|lower}}", "{{a|dflt}}", "{{#each ys}}{{item}}{{/each}}", "{{>t1}}", "{{b|" + v + "}}"):
+                probes.append(self.case([("t1", "[{{?a}}]")], {"a": v, "ys": [v, {"k": v}]},
+                                        [("render", tmpl, False)], "backslashes are data"))
+        # history probes: what one instance renders must depend neither on other instances nor on its own past
+        hist = []
+        T = "{{name|upper}} / {{user|anonymous}} / {{tone|shout}} / {{x|none}} / {{name|dflt}} / {{name|title}}"
+        for ctx in ({"name": "alice"}, {"name": "alice", "user": "bob"}, {"name": "al ice", "user": "bob", "tone": "calm", "x": 1}):
+            for other in ("over", "dfl", "bang"):
+                for first in ("none", "bang"):
+                    hist.append(self.hcase(ctx, [("new", 0, False, first), ("render", 0, T), ("new", 1, False, other),
+                                                 ("render", 1, T), ("new", 2, False, "none"), ("render", 2, T),
+                                                 ("render", 0, T), ("new", 3, True, first), ("render", 3, T)],
+                                           "other instances with custom filters must not leak"))
+        for strict, bad, good_ctx in ((True, "{{q}}", None), (False, "{{a|length}}", {"a": "xy", "b": "B"}),
+                                      (True, "{{#if b}}{{q}}{{/if}}", None)):
+            base = [("new", 0, strict, "none"), ("tmpl", 0, "hdr", "<" + bad + ">"), ("tmpl", 0, "sec", "[{{>hdr}}]"),
+                    ("tmpl", 0, "page", "A{{>sec}}B{{>hdr}}C")]
+            for top in ("{{>page}}", "{{>hdr}}", "x{{>sec}}"):
+                ops = base + [("render", 0, top), ("render", 0, top)]
+                if good_ctx is not None:
+                    ops += [("ctx", good_ctx), ("render", 0, top), ("translate", 0, "page")]
+                ops += [("tmpl", 0, "hdr", "<{{b}}>"), ("render", 0, top), ("translate", 0, "page"), ("render", 0, "{{>hdr}}")]
+                hist.append(self.hcase({"a": 5, "b": "B"}, ops, "a render that raised inside an include must leave no trace"))
         return [{"name": "every single construct x binding state x strictness", "cases": cases},
-                {"name": "pass-order probes", "cases": probes}]
+                {"name": "pass-order probes", "cases": probes},
+                {"name": "history probes (several instances, renders after errors, re-registration)", "cases": hist}]
 
     # --- implementation -----------------------------------------------------------------------------------
-    def _env_line(self, strings):
+    def _env_line(self, strings, sets):
         words, spaces = set(), set()
         for s in strings:
             for ch in s:
@@ -464,7 +545,7 @@ class C12(Prop):
                     if re.match(r"\w", ch): words.add(ch)
                     if re.match(r"\s", ch): spaces.add(ch)
         return " ".join(["env", hexs("".join(sorted(words))), hexs("".join(sorted(spaces))), hexs(self.marker[0]),
-                         hexs(self.marker[1])] + [hexs(f) for f in self.filter_names])
+                         hexs(self.marker[1])] + [st + "=" + ",".join(hexs(f) for f in self.given(st)) for st in sets])
 
     def _strings_of(self, lines):
         out = []
@@ -479,49 +560,56 @@ class C12(Prop):
     def run_impl(self, case):
         m = self.m
         lines = case["lines"]
+        # every case starts from the class state the module was imported with, so that a history replays on its own
+        # (a tree whose instances write into the class-level filter table would otherwise carry that over between cases)
+        if dict(m.Ribosome.BUILTIN_FILTERS) != self.builtin:
+            m.Ribosome.BUILTIN_FILTERS.clear()
+            m.Ribosome.BUILTIN_FILTERS.update(self.builtin)
+        sets = sorted({l.split()[3] for l in lines if l.startswith("new ") and len(l.split()) == 4 and l.split()[3] in CUSTOM})
         if lines and lines[0].startswith("env"):
-            lines[0] = self._env_line(self._strings_of(lines[1:]) + list(self.marker) + self.filter_names)
+            allf = [f for st in sets for f in self.given(st)]
+            lines[0] = self._env_line(self._strings_of(lines[1:]) + list(self.marker) + allf, sets)
         obs = []
-        templates, py, ab = [], {}, {}
-        fres = {}
+        py, ab = {}, {}
+        insts = {}
         for idx, line in enumerate(lines):
             t = line.split()
             op = t[0] if t else ""
             if op == "env":
-                obs.append("ok")
-            elif op == "tmpl" and len(t) == 3:
-                templates.append((unhexs(t[1]), unhexs(t[2])))
                 obs.append("ok")
             elif op == "ctx":
                 py, ab = dec_ctx(line)
                 for n_, v_ in py.items():
                     if str(v_) != ab[n_]["text"] or bool(v_) != ab[n_]["truthy"]:
                         raise Infra(f"ctx line does not describe its own value for {n_!r}: {line!r}")
-                fres = {}
                 obs.append("ok")
             elif op == "fenv":
-                rb = m.Ribosome(silent=True, filters=self.custom)
                 ents = []
-                for f, fn in rb.filters.items():
-                    for n, v in py.items():
-                        try:
-                            r = fn(v)
-                            ent = ("o", r) if isinstance(r, str) else ("r", "TypeError")
-                        except Exception as e:
-                            ent = ("r", type(e).__name__)
-                        fres[(f, n)] = ent
-                        ents.append(f"{hexs(f)}:{hexs(n)}:{ent[0]}:{hexs(ent[1])}")
+                for st in sets:
+                    for f, fn in self.given(st).items():
+                        for n, v in py.items():
+                            try:
+                                r = fn(v)
+                                ent = ("o", r) if isinstance(r, str) else ("r", "TypeError")
+                            except Exception as e:
+                                ent = ("r", type(e).__name__)
+                            ents.append(f"{st}:{hexs(f)}:{hexs(n)}:{ent[0]}:{hexs(ent[1])}")
                 lines[idx] = " ".join(["fenv"] + ents)
                 obs.append("ok")
-            elif op in ("render", "translate") and len(t) == 3:
-                rb = m.Ribosome(silent=True, strict=t[2] == "1", filters=self.custom)
-                for n, s in templates:
-                    rb.create_template(s, n)
+            elif op == "new" and len(t) == 4 and t[3] in CUSTOM:
+                custom = dict(CUSTOM[t[3]])
+                insts[t[1]] = m.Ribosome(silent=True, strict=t[2] == "1", filters=custom or None)
+                obs.append("ok")
+            elif op == "tmpl" and len(t) == 4 and t[1] in insts:
+                insts[t[1]].create_template(unhexs(t[3]), unhexs(t[2]))
+                obs.append("ok")
+            elif op in ("render", "translate") and len(t) == 3 and t[1] in insts:
+                rb = insts[t[1]]
                 try:
                     if op == "render":
-                        p = rb.synthesize(unhexs(t[1]), **py)
+                        p = rb.synthesize(unhexs(t[2]), **py)
                     else:
-                        p = rb.translate(unhexs(t[1]), **py)
+                        p = rb.translate(unhexs(t[2]), **py)
                     ws = [hexs(w.rsplit(": ", 1)[-1]) for w in p.warnings]
                     obs.append(f"ok {hexs(p.sequence)} {','.join(ws) if ws else '-'}")
                 except RecursionError:
@@ -534,25 +622,32 @@ class C12(Prop):
 
     # --- the property text, evaluated on what the real code did -----------------------------------------------
     def _walk(self, case):
-        """yield (idx, op, arg, strict, templates, ab, fres, filters) per render line, state rebuilt from the lines"""
-        templates, ab, fres, filters = {}, {}, {}, list(self.filter_names)
+        """yield (idx, op, arg, strict, templates, ab, fres, filters) per render line; everything is rebuilt from the
+        lines: per instance its strictness, the filters it was GIVEN and its current registry"""
+        ab, fenv, given, insts = {}, {}, {}, {}
         for idx, line in enumerate(case["lines"]):
             t = line.split()
             op = t[0] if t else ""
             if op == "env" and len(t) >= 5:
-                filters = [unhexs(x) for x in t[5:]]
-            elif op == "tmpl" and len(t) == 3:
-                templates[unhexs(t[1])] = unhexs(t[2])
+                for e in t[5:]:
+                    st, fs = e.split("=", 1)
+                    given[st] = [unhexs(x) for x in fs.split(",")] if fs else []
             elif op == "ctx":
                 _, ab = dec_ctx(line)
-                fres = {}
+                fenv = {}
             elif op == "fenv":
-                fres = {}
+                fenv = {}
                 for e in t[1:]:
-                    f, n, k, r = e.split(":")
-                    fres[(unhexs(f), unhexs(n))] = (k, unhexs(r))
-            elif op in ("render", "translate") and len(t) == 3:
-                yield idx, op, unhexs(t[1]), t[2] == "1", dict(templates), ab, fres, filters
+                    st, f, n, k, r = e.split(":")
+                    fenv.setdefault(st, {})[(unhexs(f), unhexs(n))] = (k, unhexs(r))
+            elif op == "new" and len(t) == 4 and t[3] in CUSTOM:
+                insts[t[1]] = {"strict": t[2] == "1", "set": t[3], "templates": {}}
+            elif op == "tmpl" and len(t) == 4 and t[1] in insts:
+                insts[t[1]]["templates"][unhexs(t[2])] = unhexs(t[3])
+            elif op in ("render", "translate") and len(t) == 3 and t[1] in insts:
+                i = insts[t[1]]
+                yield (idx, op, unhexs(t[2]), i["strict"], dict(i["templates"]), ab, fenv.get(i["set"], {}),
+                       given.get(i["set"], []), i["set"])
 
     def oracle(self, case, obs, extra):
         """The property text on the real code's observations.  Every violation also gets the id of the open known
@@ -563,7 +658,7 @@ class C12(Prop):
         def add(v, finding):
             out.append(v)
             attrib.append(finding)
-        for idx, op, arg, strict, templates, ab, fres, filters in self._walk(case):
+        for idx, op, arg, strict, templates, ab, fres, filters, st in self._walk(case):
             o = obs[idx]
             if op == "translate":
                 if arg not in templates:
@@ -574,7 +669,7 @@ class C12(Prop):
             # filters named by the grammar behave as documented on str(value)
             for (f, n), (k, r) in fres.items():
                 meth = {"upper": str.upper, "lower": str.lower, "trim": str.strip, "title": str.title}.get(f)
-                if meth is not None and n in ab and (k != "o" or r != meth(ab[n]["text"])):
+                if meth is not None and f not in CUSTOM[st] and n in ab and (k != "o" or r != meth(ab[n]["text"])):
                     add(Violation("builtin_filter", f"{f}({ab[n]['text']!r}) = {meth(ab[n]['text'])!r}", f"{k}:{r!r}", idx), None)
             env = {"ctx": ab, "templates": templates, "filters": set(filters), "fres": fres, "missing": [],
                    "notices": [], "reached": [src], "marker": lambda n: self.marker[0] + n + self.marker[1]}
@@ -666,11 +761,11 @@ class C12(Prop):
                                 return FINDING
                 elif op == "fenv":
                     for e in t[1:]:
-                        f, n, k, r = e.split(":")
+                        _st, f, n, k, r = e.split(":")
                         if k == "o" and has_brace(unhexs(r)):
                             return FINDING
-                elif op in ("tmpl", "render") and len(t) == 3:
-                    for tok in tokenize(unhexs(t[2] if op == "tmpl" else t[1])):
+                elif (op == "tmpl" and len(t) == 4) or (op == "render" and len(t) == 3):
+                    for tok in tokenize(unhexs(t[3] if op == "tmpl" else t[2])):
                         if tok[0] == "pipe" and has_brace(tok[2]):
                             return FINDING
                         if tok[0] == "text":
